@@ -11,6 +11,11 @@ allgather(v), reducescatter, scan, exscan):
      in lock-step: same calls in the same order, dates equal within precision/timing (1e-9 s), per-rank monotone.
 The substance is differential (two runs of the implementation); TLA+ contributes the lock-step refinement, said plainly.
 
+Finding on the unchanged tree (KNOWN_FINDINGS.jsonl, class test-same-key, proposed/fix-C37-test-requeue.diff): the replayer's
+TestAction (a) puts a request whose test failed back at the end of the list of its (src, dst, tag) key and (b) leaves a
+MPI_REQUEST_NULL placeholder after a successful test that no TI line consumes; the next wait/test on that key is replayed on
+the wrong request or as a no-op and the dates differ (2 programs of 600 in the thorough tier).
+
 Mutations (single-object rebuilds against a copy of the instrumented build, quick tier):
   M1 SendAction replays "isend" as a blocking send            -> caught (replay deadlocks / later dates)
   M2 SendAction replays "send" with half the recorded size    -> caught (dates differ)
@@ -22,7 +27,7 @@ import smpi_rt_common as R
 LEVEL = "translation_validation"
 META = {
     "text": 'Translation validation of the TI trace + replayer pair: each generated MPI program (2..8 ranks, only calls smpi_replay.cpp registers, eager and rendez-vous sizes, isend/irecv completed by wait/test/waitall, all replayable collectives) is run online with -trace-ti and smpi/simulate-computation:no while logging the simulated date after every call; the recorded TI trace is replayed by the stock replayer on the same platform/hostfile/options with its per-action log at 1e-12 s resolution; TLC (MpiReplayTV) takes the online per-rank sequence as the specification and validates the replay in lock-step (same calls, same order, dates within precision/timing = 1e-9 s, per-rank monotone).',
-    "note": "Differential in substance (two runs of the implementation); TLA+ contributes the lock-step refinement and the verdicts. Trusted: simgrid_get_clock() as online probe, the replayer's verbose log as replay probe. Waitall is generated on all pending requests only and waits in per-(src,dst,tag) FIFO order, because the TI format does not name the requests (other uses are not replayable by construction). Observed difference on the unchanged tree: 0 ps on every compared call.",
+    "note": "Differential in substance (two runs of the implementation); TLA+ contributes the lock-step refinement and the verdicts. Trusted: simgrid_get_clock() as online probe, the replayer's verbose log as replay probe. Waitall is generated on all pending requests only and waits in per-(src,dst,tag) FIFO order, because the TI format does not name the requests (other uses are not replayable by construction). Observed on the unchanged tree: 0 ps difference on every compared call outside one known-finding class (a tested request sharing its (src,dst,tag) key with another request of the rank: TestAction requeues at the back / leaves a null placeholder, proposed/fix-C37-test-requeue.diff; with the fix the check passes with no finding).",
     "technique": 'online run vs smpirun -replay of its TI trace, lock-step comparison by TLC (MpiReplayTV)'}
 DRIVERS = {"mpi_replay_prog": (["mpi_replay_prog.c"], "c-smpi", [])}
 
